@@ -1577,6 +1577,7 @@ func (p *Posix) CompleteMultipartUpload(ctx context.Context, input *s3.CompleteM
 			return nil, fmt.Errorf("create object version: %w", err)
 		}
 	}
+	p.dropStaleSidecarAttrs(bucket, object)
 
 	// if the versioning is enabled, generate a new versionID for the object
 	var versionID string
@@ -2679,6 +2680,17 @@ func (p *Posix) UploadPartCopy(ctx context.Context, upi *s3.UploadPartCopyInput)
 	}, nil
 }
 
+// dropStaleSidecarAttrs removes the attributes a previous object of this
+// key left in the sidecar store. Sidecar attributes are files keyed by
+// object name, not by the file they describe, so writing the new object's
+// attributes does not replace the ones it does not set (with xattrs the new
+// attributes live on the new file and nothing is left behind).
+func (p *Posix) dropStaleSidecarAttrs(bucket, object string) {
+	if _, ok := p.meta.(meta.SideCar); ok {
+		p.meta.DeleteAttributes(bucket, object)
+	}
+}
+
 func (p *Posix) PutObject(ctx context.Context, po s3response.PutObjectInput) (s3response.PutObjectOutput, error) {
 	acct, ok := ctx.Value("account").(auth.Account)
 	if !ok {
@@ -2885,6 +2897,7 @@ func (p *Posix) PutObject(ctx context.Context, po s3response.PutObjectInput) (s3
 		versionID = nullVersionId
 	}
 
+	p.dropStaleSidecarAttrs(*po.Bucket, *po.Key)
 	for k, v := range po.Metadata {
 		err := p.meta.StoreAttribute(f.File(), *po.Bucket, *po.Key,
 			fmt.Sprintf("%v.%v", metaHdr, k), []byte(v))
